@@ -411,6 +411,16 @@ def check_C11(chk):
         groups.append(g)
     execs = run_exec_groups(exe, groups)
     annotate(execs, groups)
+    if chk.thorough:
+        # 4 GiB + 5 zero bytes, one-shot and split; each takes minutes natively, so they run side by side
+        T = (1 << 32) + 5
+        huge = [f"hashhuge id=huge-one total={T}", f"hashhuge id=huge-halves total={T} split={1 << 31},{1 << 31},5",
+                f"hashhuge id=huge-5first total={T} split=5,{1 << 32}", f"hashhuge id=huge-3last total={T} split={(1 << 32) + 2},3"]
+        with ThreadPoolExecutor(4) as ex:
+            hres = list(ex.map(lambda ln: run_driver(exe, [ln], timeout=3000)[0], huge))
+        execs.append([{"e": "Reset", "id": "huge"}] + [e for r_ in hres for e in r_])
+        groups.append(None)
+        chk.cov['huge_messages'] = len(huge)
     judge_h(chk, exe, execs, groups)
     nfin = sum(1 for ex in execs for e in ex if e.get('e') == 'HFinal')
     chk.cov['finalize_events'] = nfin
@@ -490,8 +500,6 @@ def check_C13(chk):
     # one-shot grid
     grid = tlc_plan(chk.wd, 'Plan_Hash', dict(FAMILY='hkdfgrid', TIER=chk.tier))
     grid.sort(key=lambda g: json.dumps(g, sort_keys=True))
-    if not chk.thorough:
-        grid = [g for i, g in enumerate(grid) if i % 3 == 0]
     g = []
     for gi, s in enumerate(grid):
         salt = r.bytes(s['slen']) if s['slen'] else None
